@@ -765,8 +765,14 @@ class ChunkRules:
         if self.pad:
             want = 'FINAL' if last != 'r=sum' and last != 'r>sum' else 'FULL'
         else:
-            if last == 'r=0':
-                want = 'NODATA'
+            blocks = binop('>>', got, C(4), st.sym) if got is not None and is_int(got) and got != TOP else TOP
+            nb = compare('==', blocks, C(0), st.sym) if blocks != TOP else None
+            if nb is None:
+                self.rec.ob('R01.c', 'R01.c@%s::end-of-body-%s' % (fkey(f), self.mode), None, nloc(node),
+                            'cannot decide whether a complete block was read (got %s)' % (show(got) if got else '?'))
+                return
+            if nb:
+                want = 'NODATA'         # no complete 16-byte block was read
             elif rem == 'zero':
                 want = 'FINAL'
             else:
